@@ -28,6 +28,9 @@ json.dump(res, open(out, "w"))
 '''
 
 
+PROGS = ["10.00", "50.00", "10.00", "50.00", "90.00"]      # progress per timestamp: values repeat (same percentage reported twice)
+
+
 def consts(slots, ts):
     return {"JobSlot": str(slots), "DS": '{"d1", "d2"}', "Bytes": '{"x", "y"}', "TS": "{" + ", ".join(map(str, range(1, ts + 1))) + "}",
             "StoresLastSeen": "TRUE"}
